@@ -274,7 +274,7 @@ func childSpec(kind string, i int, dom map[string]Dom) []abs.SegSpec {
 	return nil
 }
 
-func amfDecodeCases() []amfDec {
+func amfDecodeCases(tier string) []amfDec {
 	cases := []amfDec{
 		{name: "Number", typ: "Number", spec: abs.Cat(abs.ConstBytes(0), abs.BE("x", 8)), fields: map[string]Want{"*": {Atom: "x", Width: 64}}, nprops: -1},
 		{name: "Boolean=false", typ: "Boolean", spec: abs.ConstBytes(1, 0), fields: map[string]Want{"*": {Const: cst(0)}}, nprops: -1},
@@ -298,6 +298,22 @@ func amfDecodeCases() []amfDec {
 		cases = append(cases, amfDec{name: t + ",object-end-marker-as-named-value", typ: t, ctor: "New" + t, dom: dom, spec: spec, nprops: -1, expErr: true})
 	}
 	kinds := [][]string{{}, {"number"}, {"string", "null"}, {"object", "number"}, {"ecma", "number"}, {"strict", "number"}, {"strict1", "null"}, {"objnum", "null"}, {"ecmanum", "number"}}
+	if tier == "thorough" {
+		// every ordered pair and a sample of triples of child kinds
+		all := []string{"number", "string", "null", "object", "ecma", "strict", "strict1", "objnum", "ecmanum"}
+		have := map[string]bool{}
+		for _, ks := range kinds {
+			have[strings.Join(ks, "+")] = true
+		}
+		for _, a := range all {
+			for _, b := range all {
+				if ks := []string{a, b}; !have[strings.Join(ks, "+")] {
+					kinds = append(kinds, ks)
+				}
+			}
+		}
+		kinds = append(kinds, []string{"number", "object", "string"}, []string{"ecma", "strict1", "null"}, []string{"objnum", "objnum", "number"})
+	}
 	for _, ks := range kinds {
 		for _, t := range []string{"Object", "EcmaArray", "StrictArray"} {
 			dom := map[string]Dom{"cnt": {W: 32, Hi: -1}}
@@ -327,7 +343,7 @@ func amfDecodeCases() []amfDec {
 
 func amfDecodeChecks(c *Ctx, e *abs.Engine, ruleConsumed, ruleScalar string, skip func(amfDec) bool) {
 	P, R := c.P, c.R
-	for _, cs := range amfDecodeCases() {
+	for _, cs := range amfDecodeCases(c.Tier) {
 		cs := cs
 		if skip != nil && skip(cs) {
 			continue
